@@ -15,7 +15,9 @@ AtomsFull == { DotDot, Dot1, <<>>, <<SLASH>>, <<SLASH, SLASH>>, <<BSL>>, <<67, 5
                <<37, 50, 101, 37, 50, 101>>, <<NUL>>, <<97>>, <<97, 46, 98>> }
                \* ..  .  ""  /  //  \  C:  ~  %2e%2e  NUL  a  a.b
 AtomsSmall == { DotDot, Dot1, <<>>, <<SLASH>>, <<BSL>>, <<NUL>>, <<97>> }
-Atoms == IF AtomSet = "full" THEN AtomsFull ELSE AtomsSmall
+\* NUL followed by dot-dot sequences: 'NUL/..'  '/..'  '..'  NUL  a  'a.b NUL .c'  ''  /
+AtomsNul == { <<NUL, SLASH, DOT, DOT>>, <<SLASH, DOT, DOT>>, DotDot, <<NUL>>, <<97>>, <<97, 46, 98, NUL, 46, 99>>, <<>>, <<SLASH>> }
+Atoms == IF AtomSet = "full" THEN AtomsFull ELSE IF AtomSet = "nul" THEN AtomsNul ELSE AtomsSmall
 
 RECURSIVE Cat(_, _)
 Cat(S, n) == IF n = 0 THEN {<<>>} ELSE {a \o r : a \in S, r \in Cat(S, n - 1)}
